@@ -1,6 +1,7 @@
 package main
 
 import (
+	"go/types"
 	"reflect"
 	"fmt"
 	"go/token"
@@ -81,13 +82,13 @@ func parseEq(a Atom) (x, y ssa.Value, ok bool) {
 		if c, isCall := L.(*ssa.Call); isCall {
 			if m := bigMethod(c); m == "Cmp" {
 				if k, okk := constInt(R); okk && cmpOutcomeRel(rel, k) == "==" {
-					return c.Call.Args[0], c.Call.Args[1], true
+					return callArgs(c)[0], callArgs(c)[1], true
 				}
 				return nil, nil, false
 			}
 			if isCallTo(c, "crypto/subtle.ConstantTimeCompare") {
 				if k, okk := constInt(R); okk && ((rel == "==" && k == 1) || (rel == "!=" && k == 0)) {
-					return c.Call.Args[0], c.Call.Args[1], true
+					return callArgs(c)[0], callArgs(c)[1], true
 				}
 				return nil, nil, false
 			}
@@ -99,7 +100,7 @@ func parseEq(a Atom) (x, y ssa.Value, ok bool) {
 		}
 	case *ssa.Call:
 		if a.Want == True && isCallTo(v, "bytes.Equal", "slices.Equal", "reflect.DeepEqual") {
-			return v.Call.Args[0], v.Call.Args[1], true
+			return callArgs(v)[0], callArgs(v)[1], true
 		}
 	}
 	return nil, nil, false
@@ -471,6 +472,49 @@ func notDecodableRule(P *Program, R *Report, rule string, fields [][2]string) {
 			cb, hasC := tag.Lookup("cbor")
 			ok := !f.Exported() || (hasJ && strings.Split(j, ",")[0] == "-" && (!hasC || strings.Split(cb, ",")[0] == "-"))
 			R.decide(rule, c, "the field holds state derived by the verifier and cannot be supplied in a decoded message (unexported or json:\"-\")", ok, "tag: `"+st.Tag(i)+"`", "")
+		}
+		if !found {
+			// the field may have been regrouped into a struct value nested in the owner (fieldalias.go): it cannot be
+			// supplied by a decoder if any step of the path is hidden from the codecs (unexported and not embedded -
+			// encoding/json promotes the exported fields of an embedded unexported struct - or tagged "-")
+			for path, name := range fieldAlias {
+				if name != tf[1] || !strings.HasPrefix(path, tf[0]+".") {
+					continue
+				}
+				cur := st
+				hidden := false
+				resolved := true
+				for _, step := range strings.Split(strings.TrimPrefix(path, tf[0]+"."), ".") {
+					if cur == nil {
+						resolved = false
+						break
+					}
+					var next *types.Struct
+					stepFound := false
+					for i := 0; i < cur.NumFields(); i++ {
+						f := cur.Field(i)
+						if f.Name() != step {
+							continue
+						}
+						stepFound = true
+						tag := reflect.StructTag(cur.Tag(i))
+						j, hasJ := tag.Lookup("json")
+						cb, hasC := tag.Lookup("cbor")
+						if (!f.Exported() && !f.Embedded()) || (hasJ && strings.Split(j, ",")[0] == "-" && (!hasC || strings.Split(cb, ",")[0] == "-")) {
+							hidden = true
+						}
+						next, _ = f.Type().Underlying().(*types.Struct)
+					}
+					if !stepFound {
+						resolved = false
+					}
+					cur = next
+				}
+				if resolved {
+					found = true
+					R.decide(rule, c, "the field holds state derived by the verifier and cannot be supplied in a decoded message (unexported or json:\"-\")", hidden, "now at "+path, "")
+				}
+			}
 		}
 		if !found {
 			R.und(rule, c, "field found", "", "")
